@@ -66,6 +66,40 @@ type Recorder struct {
 	readers []*TrackedReader
 	writers []*TrackedWriter
 	funcs   *ociregistry.Funcs
+	uploads map[string]*cannedUpload
+	commits []Commit
+	nextID  int
+}
+
+// Commit records a Commit call on a canned upload.
+type Commit struct {
+	Repo   string
+	ID     string
+	Digest string
+	Data   []byte
+}
+
+type cannedUpload struct {
+	repo string
+	buf  bytes.Buffer
+}
+
+// Commits returns the commits seen by canned writers.
+func (r *Recorder) Commits() []Commit {
+	r.mu.Lock()
+	defer r.mu.Unlock()
+	return append([]Commit(nil), r.commits...)
+}
+
+// UploadBytes returns the bytes accumulated in every canned upload session.
+func (r *Recorder) UploadBytes() map[string][]byte {
+	r.mu.Lock()
+	defer r.mu.Unlock()
+	out := map[string][]byte{}
+	for id, u := range r.uploads {
+		out[id] = append([]byte(nil), u.buf.Bytes()...)
+	}
+	return out
 }
 
 // New returns a recorder in front of inner (which may be nil).
@@ -90,6 +124,7 @@ func (r *Recorder) Reset() {
 	r.mu.Lock()
 	defer r.mu.Unlock()
 	r.calls, r.readers, r.writers = nil, nil, nil
+	r.uploads, r.commits = nil, nil
 }
 
 // Readers returns every reader handed out so far.
@@ -237,19 +272,49 @@ func cannedSeq[T any](items []T, err, lerr error) ociregistry.Seq[T] {
 
 // cannedWriter is the writer handed out by a recorder without inner registry.
 type cannedWriter struct {
-	buf  bytes.Buffer
-	id   string
-	desc ociregistry.Descriptor
+	r  *Recorder
+	id string
+	up *cannedUpload
 }
 
-func (w *cannedWriter) Write(p []byte) (int, error) { return w.buf.Write(p) }
-func (w *cannedWriter) Close() error                { return nil }
-func (w *cannedWriter) Size() int64                 { return int64(w.buf.Len()) }
-func (w *cannedWriter) ChunkSize() int              { return 8192 }
-func (w *cannedWriter) ID() string                  { return w.id }
-func (w *cannedWriter) Cancel() error               { return nil }
+func (r *Recorder) cannedWriter(repo, id string) *cannedWriter {
+	r.mu.Lock()
+	defer r.mu.Unlock()
+	if r.uploads == nil {
+		r.uploads = map[string]*cannedUpload{}
+	}
+	if id == "" {
+		r.nextID++
+		id = fmt.Sprintf("canned-upload-%d", r.nextID)
+	}
+	up := r.uploads[id]
+	if up == nil {
+		up = &cannedUpload{repo: repo}
+		r.uploads[id] = up
+	}
+	return &cannedWriter{r: r, id: id, up: up}
+}
+
+func (w *cannedWriter) Write(p []byte) (int, error) {
+	w.r.mu.Lock()
+	defer w.r.mu.Unlock()
+	return w.up.buf.Write(p)
+}
+func (w *cannedWriter) Close() error { return nil }
+func (w *cannedWriter) Size() int64 {
+	w.r.mu.Lock()
+	defer w.r.mu.Unlock()
+	return int64(w.up.buf.Len())
+}
+func (w *cannedWriter) ChunkSize() int { return 8192 }
+func (w *cannedWriter) ID() string     { return w.id }
+func (w *cannedWriter) Cancel() error  { return nil }
 func (w *cannedWriter) Commit(d ociregistry.Digest) (ociregistry.Descriptor, error) {
-	return ociregistry.Descriptor{Digest: d, Size: int64(w.buf.Len()), MediaType: "application/octet-stream"}, nil
+	w.r.mu.Lock()
+	defer w.r.mu.Unlock()
+	data := append([]byte(nil), w.up.buf.Bytes()...)
+	w.r.commits = append(w.r.commits, Commit{Repo: w.up.repo, ID: w.id, Digest: string(d), Data: data})
+	return ociregistry.Descriptor{Digest: d, Size: int64(len(data)), MediaType: "application/octet-stream"}, nil
 }
 
 func (r *Recorder) build() *ociregistry.Funcs {
@@ -297,7 +362,20 @@ func (r *Recorder) build() *ociregistry.Funcs {
 			if r.Inner != nil {
 				return r.trackR("GetBlobRange")(r.Inner.GetBlobRange(ctx, repo, dg, o0, o1))
 			}
-			return r.trackR("GetBlobRange")(reader("GetBlobRange"))
+			br, err := reader("GetBlobRange")
+			if err == nil {
+				data := r.Canned.Data
+				n := int64(len(data))
+				e := o1
+				if e < 0 || e > n {
+					e = n
+				}
+				if o0 < 0 || o0 > e {
+					return nil, fmt.Errorf("invalid range")
+				}
+				br = ocimem.NewBytesReader(data[o0:e], br.Descriptor())
+			}
+			return r.trackR("GetBlobRange")(br, err)
 		},
 		GetManifest_: func(ctx context.Context, repo string, dg ociregistry.Digest) (ociregistry.BlobReader, error) {
 			r.log(Call{Method: "GetManifest", Repo: repo, Digest: string(dg), Ctx: ctx})
@@ -356,7 +434,7 @@ func (r *Recorder) build() *ociregistry.Funcs {
 			if c := cn(); c.Err != nil {
 				return nil, c.Err
 			}
-			return r.trackW("PushBlobChunked")(&cannedWriter{id: "canned-upload"}, nil)
+			return r.trackW("PushBlobChunked")(r.cannedWriter(repo, ""), nil)
 		},
 		PushBlobChunkedResume_: func(ctx context.Context, repo, id string, offset int64, chunkSize int) (ociregistry.BlobWriter, error) {
 			r.log(Call{Method: "PushBlobChunkedResume", Repo: repo, ID: id, Offset0: offset, ChunkSize: chunkSize, Ctx: ctx})
@@ -366,7 +444,7 @@ func (r *Recorder) build() *ociregistry.Funcs {
 			if c := cn(); c.Err != nil {
 				return nil, c.Err
 			}
-			return r.trackW("PushBlobChunkedResume")(&cannedWriter{id: id}, nil)
+			return r.trackW("PushBlobChunkedResume")(r.cannedWriter(repo, id), nil)
 		},
 		MountBlob_: func(ctx context.Context, from, to string, dg ociregistry.Digest) (ociregistry.Descriptor, error) {
 			r.log(Call{Method: "MountBlob", FromRepo: from, Repo: to, Digest: string(dg), Ctx: ctx})
